@@ -6,7 +6,7 @@ for id in $ids; do
   prop=$(echo $id | cut -d- -f1)
   if ! git -C /repo apply --check /verif/seeded/$id/patch.diff 2>/dev/null; then echo "$id: PATCH DOES NOT APPLY"; continue; fi
   if [ -n "$(git -C /repo status --porcelain)" ]; then echo "REFUSING: /repo has uncommitted changes"; exit 1; fi; git -C /repo apply /verif/seeded/$id/patch.diff
-  out=$(./check $prop quick 2>&1)
+  out=$(VERIF_NO_EVIDENCE=1 ./check $prop quick 2>&1)
   git -C /repo apply -R /verif/seeded/$id/patch.diff
   v=$(echo "$out" | grep -c "^VIOLATION")
   echo "$id: $(echo "$out" | grep '^property' | cut -c1-120) -> $( [ $v -gt 0 ] && echo DETECTED || echo MISSED )"
